@@ -25,7 +25,7 @@ ASSUMPTIONS = ["faults are injected at Python-level open/mkdir/write calls (not 
                "fault-free output", "pool shim M1 in-process so that fault points are deterministic"]
 REQUIRED_OBS = {"invocations": 150, "set:tools": 11, "default_output_forms": 30, "trailing_slash_forms": 30,
                 "fault_points_injected": 150, "faults_surfaced": 120, "missing_binary_forms": 6,
-                "audit_events": 500}
+                "audit_events": 500, "realpool_faults_surfaced": 10}
 TIMEOUT = {"quick": 900, "thorough": 3600}
 
 RECIPE = scenarios.RECIPE
@@ -60,6 +60,10 @@ def cases(tier, seed):
     if tier == "thorough":
         for tool in ["colander", "chef", "marinate", "chk2plt", "mandoline_array", "combine", "whip"]:
             cs.append({"kind": "strace", "tool": tool, "seed": seed * 100 + 13})
+    # faults inside real pool workers (the exception has to travel back through multiprocessing / pathos)
+    for tool in ["colander", "combine", "combine_byfile", "chef", "chk2plt", "mandoline_plotfile", "whip"]:
+        cs.append({"kind": "realpool_faults", "tool": tool, "seed": seed * 100 + 21,
+                   "max_targets": 2 if tier == "quick" else 12})
     return cs
 
 
@@ -512,6 +516,59 @@ def run_truncated(case, work, rec):
     clean_outputs(sb, new)
 
 
+def _sub_fault(spec, timeout=600):
+    env = dict(os.environ)
+    env["PYTHONPATH"] = common.VERIF
+    p = subprocess.run([common.PY, "-m", "vlib.realfault", json.dumps(spec)], capture_output=True, text=True,
+                       timeout=timeout, cwd=common.VERIF, env=env)
+    for line in p.stdout.split("\n"):
+        if line.startswith("RESULT "):
+            return json.loads(line[7:])
+    return {"ok": False, "error": f"no result (exit {p.returncode}): {p.stderr[-300:]}"}
+
+
+def run_realpool_faults(case, work, rec):
+    tool = case["tool"]
+    rec.seen("tools", tool)
+    base = {"tool": tool, "seed": case["seed"], "workers": 2}
+    ref = _sub_fault(dict(base, work=os.path.join(work, "ref"), fault=None))
+    if not ref.get("ok") or ref.get("raised"):
+        rec.undecided(f"fault-free real-pool run of {tool} failed: {ref.get('error') or ref.get('raised')}")
+        return
+    if ref.get("pool_tasks", 0) == 0 and tool != "whip":
+        rec.undecided(f"real pool not reached by {tool}")
+    rng = random.Random(case["seed"])
+    files = ref["files"]
+    workers_files = [f for f in files if "Cell_D" in f or f.endswith(".npy")]
+    parent_files = [f for f in files if f not in workers_files]
+    targets = rng.sample(workers_files, min(len(workers_files), case["max_targets"])) + \
+        rng.sample(parent_files, min(len(parent_files), max(1, case["max_targets"] // 3)))
+    k = 0
+    for f in targets:
+        for kind, nth in (("open", 1), ("write", 1), ("write", 2)):
+            k += 1
+            spec = dict(base, work=os.path.join(work, f"f{k}"), fault={"substr": os.path.basename(f) if "Level" not in f else os.sep.join(f.split(os.sep)[-2:]),
+                                                                     "kind": kind, "nth": nth})
+            r = _sub_fault(spec)
+            key = (tool, "realpool-fault", f, kind, nth)
+            descr = f"{tool} under a real pool (2 workers): {kind} #{nth} on {f} fails"
+            shutil.rmtree(spec["work"], ignore_errors=True)
+            if not r.get("ok"):
+                rec.undecided(f"real-pool fault run crashed: {r.get('error')}")
+                continue
+            rec.count("realpool_faults_run")
+            if r["raised"]:
+                rec.count("realpool_faults_surfaced")
+                rec.ok(key, True)
+            elif r["digest"] == ref["digest"]:
+                rec.count("realpool_faults_not_met_or_absorbed")
+                rec.ok(key, False)
+            else:
+                rec.violation(f"I/O failure inside a pool worker not reported ({descr}): the tool returned normally with "
+                              f"output that differs from the fault-free output", key=key, witness={"fault": spec["fault"]})
+    shutil.rmtree(os.path.join(work, "ref"), ignore_errors=True)
+
+
 def run_strace(case, work, rec):
     """console form in a real subprocess under strace: no successful write-class syscall under S/in"""
     tool = case["tool"]
@@ -549,4 +606,4 @@ def run_strace(case, work, rec):
 
 def run_case(case, work, rec):
     {"forms": run_forms, "faults": run_faults, "missing": run_missing, "strace": run_strace,
-     "truncated": run_truncated}[case["kind"]](case, work, rec)
+     "truncated": run_truncated, "realpool_faults": run_realpool_faults}[case["kind"]](case, work, rec)
